@@ -18,7 +18,7 @@ import common
 from common import Case, Failure, f2x, flist, clist, parse_flist, close_vec
 
 PID = 'C04'
-LEAN_TARGETS = ['Nitime.Props.C04', 'Nitime.Props.C04Hist']
+LEAN_TARGETS = ['Nitime.Props.C04', 'Nitime.Props.C04Hist', 'Nitime.Props.C04Block']
 RULE = ('one PRNG state drives: estimator in {periodogram, periodogram_csd, multi_taper_psd, multi_taper_csd, welch(get_spectra), '
         'SpectralAnalyzer.psd/.periodogram/.spectrum_multi_taper}, the csd estimators also reached through get_spectra / get_spectra_bi / CoherenceAnalyzer.spectrum with the full option set, x real/complex x n of both parities x NFFT in {None, n, >n odd/even} x '
         'sides in {default, onesided, twosided} x Fs log-uniform in (1e-2,1e4) x 1..6 channels (+ an extra leading dimension), stratified by case index so that every parity / NFFT-mode / amplitude decade 1e-9..1e6 with non-zero mean / layout (1-d, (1,n), >=4 channels) / n_overlap in {None,0,1,N/2,N-1} / unit in {s,ms,us} combination occurs in each run, coherent channels with different spectra for adaptive weights x '
@@ -28,6 +28,8 @@ RULE = ('one PRNG state drives: estimator in {periodogram, periodogram_csd, mult
         'precomputed transform Sk= (complex128 / complex64 / read-only / 3-d, length n, >n odd/even, 2n, <n) in programs of 1..4 calls periodogram_csd / periodogram / periodogram(row) on ONE transform object with varying sides / normalize, results scribbled on between calls; '
         '(L2/L6) self-contained histories (part of the case, replayable): dpss_windows(N, NW, Kmax, interp_from, interp_kind) / other NW / tapered_spectra calls before a multitaper estimate on a fresh signal length, a variant call with other options (sides, NFFT, low_bias, adaptive flipped; same n, NW) before the judged call, the judged call made twice with the first result overwritten, one Welch spec dict handed to CoherenceAnalyzer / SpectralAnalyzer objects of a recording with another sampling rate before the judged analyzer, request histories through dpss_windows classified against scipy.signal.windows.dpss; '
         'tapered_spectra(precomputed tapers) + mtm_cross_spectrum called directly for every pair, twice on the same spectra; '
+        'round 4, oracle-only (harness/c04big.py; judged per bin and per channel against the definition by np.fft with scipy DPSS tapers, Parseval, fold, diag = psd): (L9) every estimator / tapered_spectra / mtm_cross_spectrum / Welch / SpectralAnalyzer getter at NFFT in {2^13, 2^13+1, 2^14, 2^14+2, 2^15} with n <= 256, 1..9 channels and 4x5 leading dimensions, K*NFFT*M above 2^18 and 2^20 with M odd, recordings of 2^13..2^16 samples; every even NFFT in 2..512 for the Nyquist bin; (L10) per-channel gains 2^+-250 .. 2^+-500 uniform and lopsided, expectation = exact rescaling of the result for the unscaled data; '
+        'blockfold / blockrows: the block-wise one-sided assembly of the model applied to the two-sided periodogram of the implementation = its one-sided periodogram, rows of tapered_spectra that hold the transform = rows filled by ceil(M/rows) blocks; '
         'distinct = distinct protocol line; non-trivial = signal not identically zero')
 ASSUMPTIONS = [
     'DPSS tapers and eigenvalues are taken from nitime.utils.dpss_windows and passed to the model as data (their properties are C07)',
@@ -48,6 +50,7 @@ TRUSTED_EXTRA = ['harness/translate_c04.py gen_ansess: which object each Spectra
     'harness/translate_c04.py gen_specwrites: flow-insensitive ast analysis giving, per estimator, the names modified in place and the names that may view a parameter (Generated/SpecWrites.lean; Props/C04Hist.lean estimators_do_not_write_parameters is decide over it, skAfter / skRun_eq_map rest on it)',
     'scipy.signal.windows.dpss as the independent taper provider of the history cases and of the taper-provider histories',
     'numpy.fft.fft computes the caller-supplied transform Sk of the Sk= cases (the model takes Sk as data and never transforms)',
+    'round 4 oracle-only families (harness/c04big.py): numpy.fft.fft / numpy.einsum / scipy.signal.windows.dpss compute the definition the implementation is compared with per bin at sizes the model does not run (NFFT 2^13..2^16); numpy.ldexp as the exact power-of-two scaling of the L10 cases; the block-wise definitions of Model/C04Block.lean are tied to the code only through the driver ops blockfold / blockrows (today\'s source has no blocks)',
     'exact reading: the same polymorphic definitions run over Q / Q(i) (ops xperiodogram, xpcsd, xwelch; NFFT in {1,2,4}, the only lengths with roots of unity in Q(i)); the implementation is compared with the exact rationals at 1e-13 and Parseval is checked with == on the exact output in every run',
 ]
 
@@ -1854,6 +1857,44 @@ def ansess_cases():
         out.append(Case(line, impl, 'analyzer_session/rate-used', meta=None))
     return out
 
+def block_cases(seed):
+    """round 4 (L9) correspondence of Model/C04Block.lean: `blockfold` = the block-wise one-sided assembly (lower bound offset by
+    the block start) of the model applied to the implementation's TWO-sided density must be the implementation's ONE-sided
+    density, for several block sizes; `blockrows` = the rows filled by ceil(M/rows) blocks of `rows` rows must be the rows of
+    utils.tapered_spectra's result that hold the transform of their channel (sizes above a 2^18-value cap)"""
+    import c04big
+    out = []
+    rs = np.random.RandomState(4242 + int(seed))
+    k = 0
+    for n, N in [(9, 16), (12, 12), (7, 21), (16, 34), (20, 20), (5, 10), (31, 64)]:
+        x = rs.randn(n) + 0.5
+        for est in ('periodogram', 'multi_taper_psd'):
+            if est == 'periodogram':
+                P2 = np.asarray(tsa().periodogram(x, Fs=1.5, N=N, sides='twosided')[1])
+                P1 = np.asarray(tsa().periodogram(x, Fs=1.5, N=N, sides='onesided')[1])
+            else:
+                if n < 9:
+                    continue
+                kw = dict(Fs=1.5, NW=2, low_bias=False, adaptive=False, jackknife=False, NFFT=N)
+                P2 = np.asarray(tsa().multi_taper_psd(x, sides='twosided', **kw)[1])
+                P1 = np.asarray(tsa().multi_taper_psd(x, sides='onesided', **kw)[1])
+            for b in sorted({1, 2, 3 + k % 3, max(1, N // 4), N // 2, N // 2 + 1, N, 0}):
+                out.append(Case('%s blockfold %d %d %s' % (PID, N, b, flist(P2)), ok_f(P1), 'blockfold/%s' % est, cmp=cmp_vec(1e-12), meta=None))
+            k += 1
+    for (M, n, N, NW, lb) in [(3, 256, 2 ** 14, 4, True), (5, 200, 2 ** 13, 4, True), (7, 64, 2 ** 14, 2, False)][int(seed) % 3:][:2]:
+        dpss, eig = c04big.ref_tapers(n, NW, lb)
+        x = rs.randn(M, n) + 0.25
+        T = np.asarray(utils().tapered_spectra(x, np.array(dpss), NFFT=N)).reshape(M, len(eig), N)
+        R = c04big.ref_tapered(x, dpss, N)
+        rows_ok = [i for i in range(M) if c04big.entry_close(T[i], R[i], 1e-8) is None]
+        rows = max(1, min(M, 2 ** 18 // max(1, len(eig) * N)))
+        out.append(Case('%s blockrows %d %d' % (PID, M, rows), 'ok ' + ','.join(str(i) for i in rows_ok), 'blockrows/tapered_spectra', meta=None))
+    for M in range(1, 8):
+        rows = 1 + (M + int(seed)) % (M + 1)
+        out.append(Case('%s blockrows %d %d' % (PID, M, rows), 'ok ' + ','.join(str(i) for i in range(M)), 'blockrows/all-rows', meta=None))
+    return out
+
+
 _RES = {}
 SKIPPED = {}
 
@@ -1885,6 +1926,7 @@ def cases(rng, tier, seed):
                     _RES[id(c)] = (r, cs)
             out += cs
         out += ansess_cases()
+        out += block_cases(seed)
     return out
 
 
@@ -1907,11 +1949,24 @@ def oracle(rng, tier, seed, focus, cases=None):
                     fails.append(Failure('%s/%s' % (clause_of(m), sym), '%s: %s' % (clause_of(m), what),
                                          {'meta': m, 'symptom': sym}, case=g))
             checks += 1
-    return fails, {'judged': n, 'failed': len(fails), 'focus': len(focus), 'skipped': dict(SKIPPED)}
+        # round 4: oracle-only families (L9 size thresholds, every even N for the Nyquist bin, L10 extreme / lopsided magnitudes);
+        # no model line (the model's naive DFT is O(N^2)); judged against the definition computed by plain numpy
+        import c04big
+        bigf, bigcnt = c04big.run_pool(PID, tier, seed)
+        for key, what, spc in bigf:
+            fails.append(Failure(key, what, {'big': spc, 'key': key}))
+    return fails, {'judged': n, 'failed': len(fails), 'focus': len(focus), 'skipped': dict(SKIPPED), 'oracle_only': bigcnt}
 
 
 def replay(d):
     import warnings, io, contextlib
+    if d.get('big') is not None:
+        import c04big
+        res = c04big.judge(d['big'])
+        for key, what in res:
+            if d.get('key') is None or key == d['key']:
+                return Failure(key, what, d)
+        return None
     m = d['meta']
     with warnings.catch_warnings(), contextlib.redirect_stdout(io.StringIO()):
         warnings.simplefilter('ignore')
